@@ -595,6 +595,9 @@ EXPECT = {
 
 def run(chk, driver, tier):
     rng = chk.rng
+    # real `bumpver update` runs with legacy patterns on real files (several patterns per file and per line): props/v1e2e.py
+    import props.v1e2e as v1e2e
+    v1e2e.run(chk, 300 if tier == "thorough" else 30, driver, faults=0.1)
     thorough = tier == "thorough"
     n = 6000 if thorough else 700
     chk.extra["rule"] = ("documented stream: the composites {pycalver} {semver} {calver} {build} {release} {pep440_pycalver} {pep440_version} and sequences of "
